@@ -87,6 +87,8 @@ func (t *TypeExpr) String() string {
 		return "map[" + t.Key.String() + "]" + t.Elem.String()
 	case "set", "seq":
 		return t.Kind + "[" + t.Elem.String() + "]"
+	case "chan":
+		return "chan " + t.Elem.String()
 	}
 	if t.Pkg != "" {
 		return t.Pkg + "." + t.Name
@@ -372,6 +374,21 @@ func (p *parser) parseType() *TypeExpr {
 		e := p.parseType()
 		p.expect("]")
 		return &TypeExpr{Kind: t.text, Elem: e}
+	case t.kind == "id" && t.text == "chan":
+		p.next()
+		if p.isOp("<") { // chan<- T
+			p.next()
+			p.expect("-")
+		}
+		return &TypeExpr{Kind: "chan", Elem: p.parseType()}
+	case t.kind == "op" && t.text == "<": // <-chan T
+		p.next()
+		p.expect("-")
+		if !p.isID("chan") {
+			panic(fmt.Errorf("chan expected at %d in %q", p.peek().pos, p.src))
+		}
+		p.next()
+		return &TypeExpr{Kind: "chan", Elem: p.parseType()}
 	case t.kind == "id" && t.text == "func":
 		p.next()
 		p.skipBalanced("(", ")")
